@@ -145,7 +145,8 @@ def mutate_attr(
     will_invalidate = bool(
         not skip_invalidation and metadata and metadata.invalidation_map
     )
-    saved_state = dict(obj.__dict__) if inplace and will_invalidate else None
+    live = inplace or bool(metadata and metadata.do_not_copy)
+    saved_state = dict(obj.__dict__) if live and will_invalidate else None
 
     # Perform actual mutation
     try:
@@ -330,7 +331,7 @@ def mutate_value(
         if not mutate_safe:
             value = protect_via_deepcopy(value)
             mutate_safe = True
-        with _restored_on_error(value, enabled=inplace):
+        with _restored_on_error(value, enabled=inplace or _never_copied(value)):
             for attr, attr_value in attrs.items():
                 if attr in used_attrs:
                     continue
@@ -347,13 +348,22 @@ def mutate_value(
     if attr_transforms:
         if not mutate_safe:
             value = protect_via_deepcopy(value)
-        with _restored_on_error(value, enabled=inplace):
+        with _restored_on_error(value, enabled=inplace or _never_copied(value)):
             for attr, attr_transform in attr_transforms.items():
                 transformed_value = attr_transform(getattr(value, attr, MISSING))
                 if transformed_value is not MISSING:
                     _set_attr(value, attr, transformed_value, private_copy=not inplace)
 
     return value
+
+
+def _never_copied(obj: Any) -> bool:
+    """
+    Whether `obj` is an instance of a `do_not_copy` spec-class. Such instances
+    are handed back by `protect_via_deepcopy` as they are, and so are mutated
+    in place by every helper method.
+    """
+    return bool(getattr(getattr(obj, "__spec_class__", None), "do_not_copy", False))
 
 
 @contextlib.contextmanager
